@@ -15,6 +15,7 @@ import coregram
 
 CACHE = os.path.join(ROOT, "corpus", "c12", "oracle_cache.jsonl.gz")
 WITNESSES = os.path.join(ROOT, "corpus", "c12", "witnesses.txt")
+REGRESS = os.path.join(ROOT, "corpus", "c12", "regress.txt")   # pinned regression inputs: every seed and tier, live shells
 POOL_N = 3500
 
 
@@ -36,6 +37,10 @@ def run(ctx):
     rc, rows, err = ctx.jsonl([binp, "gen", "-seed", str(ctx.seed), "-n", str(POOL_N), "-tier", ctx.tier,
                                "slices=1", "cache=" + CACHE, "recheck=%d" % recheck, "fresh=%d" % fresh], timeout=7200)
     rc2, wrows, err2 = ctx.jsonl([binp, "src", "-in", WITNESSES], timeout=600)
+    rc3, rrows, err3 = ctx.jsonl([binp, "src", "-in", REGRESS], timeout=600)
+    rrows = [r for r in rrows if "src" in r]
+    if rc3 != 0 or len(rrows) < 15:
+        ctx.broken.append(("harness-run", "c12 pinned regression corpus did not run: rc=%d %s" % (rc3, err3[-400:])))
     summ = [r for r in rows if "summary" in r]
     rows = [r for r in rows if "src" in r]
     wrows = [r for r in wrows if "src" in r]
@@ -50,7 +55,7 @@ def run(ctx):
                 "(~30k cases, shell verdicts cached in corpus/c12, a seeded sample re-run live; thorough: 4000 live) + fresh "
                 "seeded programs run live + the witnesses of every known finding. non-trivial = distinct source of >= 3 tokens" % POOL_N)
     docs = {}
-    for r in rows + wrows:
+    for r in rows + wrows + rrows:
         nt = len(r.get("toks") or [])
         ctx.count(2, [r["src"]] if nt >= 3 else [])
         for f in r.get("fails") or []:
